@@ -107,10 +107,12 @@ type regExec struct {
 	cur   regOp
 	fired bool
 	nfired int
-	// entities whose last operation was hit by an injected fault: the disk,
-	// not the registry, may have destroyed or moved their files; the running
-	// registry is not compared for them until the next restart
-	exempt map[int]bool
+	// records that were persisted before an operation which was then hit by
+	// an injected fault: the disk, not the registry, may have destroyed
+	// (truncate on re-save) or moved (cut archive) their files, so the running
+	// registry may still know them until the next restart. A record that a
+	// failed operation itself introduced is NOT covered.
+	extra map[string]bool
 }
 
 func regSorted(rs []RegRecord) []string {
@@ -184,7 +186,7 @@ func (x *regExec) open(why string) bool {
 			return false
 		}
 		x.inst = inst
-		x.exempt = map[int]bool{}
+		x.extra = map[string]bool{}
 		readFault := false
 		for _, op := range x.disk.Ops()[before:] {
 			if op.Fault.Kind == DiskReadContentErr || op.Fault.Kind == DiskReadDirErr {
@@ -209,6 +211,10 @@ func (x *regExec) open(why string) bool {
 				return false
 			}
 			continue // restart again with a readable disk; then exact
+		}
+		if torn > 0 && regSubset(want, got) && len(got) > len(want) {
+			x.r.Failf("C38:torn-file-loaded-at-startup", "after restart (%s) the registry knows %s, but only %s are completely persisted and not archived: a torn file (%d torn/empty files in the durable layer) was accepted as a record instead of being skipped [%s]", why, regShort(got), regShort(want), torn, x.where())
+			return false
 		}
 		if strings.Join(got, ",") != strings.Join(want, ",") {
 			x.r.Failf("C38:restart-differs-from-durable", "after restart (%s) the registry knows %s, persisted and not archived are %s (torn/empty files: %d) [%s]", why, regShort(got), regShort(want), torn, x.where())
@@ -247,11 +253,10 @@ func (x *regExec) live(after regOp) bool {
 	for _, w := range regSorted(model) {
 		have[w] = true
 	}
-	for _, rec := range recs {
-		if x.exempt[rec.Entity] {
+	for _, g := range regSorted(recs) {
+		if x.extra[g] {
 			continue
 		}
-		g := regSorted([]RegRecord{rec})[0]
 		if !have[g] {
 			x.r.Failf("C38:knows-unpersisted", "after %s the running registry knows %s which is not in the durable layer (it would be lost by a restart); durable: %s [%s]", after, g[:16], regShort(regSorted(model)), x.where())
 			return false
@@ -267,7 +272,7 @@ func (x *regExec) run() (calls int, ok bool) {
 	x.owner = map[string]RegRecord{}
 	x.seen = 0
 	x.disk.OnFault = func(kind string) { x.r.Fault(kind); x.fired = true; x.nfired++ }
-	x.exempt = map[int]bool{}
+	x.extra = map[string]bool{}
 	if x.plan != nil {
 		if x.plan.full {
 			p := x.plan
@@ -289,6 +294,7 @@ func (x *regExec) run() (calls int, ok bool) {
 		x.cur = op
 		var err error
 		firedBefore := x.nfired
+		modelBefore, _ := x.model()
 		crashed := CatchDiskCrash(func() {
 			switch op.kind {
 			case "register":
@@ -302,7 +308,11 @@ func (x *regExec) run() (calls int, ok bool) {
 		_ = err
 		x.attribute()
 		if x.nfired > firedBefore {
-			x.exempt[op.entity] = true
+			for _, rec := range modelBefore {
+				if rec.Entity == op.entity {
+					x.extra[regSorted([]RegRecord{rec})[0]] = true
+				}
+			}
 		}
 		if crashed || x.disk.Crashed() {
 			x.r.Probe("crash-inside-" + op.kind)
